@@ -34,7 +34,7 @@ pub struct Mem {
     pub writes: u64,
 }
 
-pub const DENSE_LIMIT: usize = 1 << 18;
+pub const DENSE_LIMIT: usize = 1 << 13;
 
 impl Mem {
     pub fn new(fw: u16, fh: u16) -> Mem {
